@@ -30,7 +30,7 @@ static void run_case(CaseCtx& c)
         go.nth_max = 96;
     }
     // a few levels above 10 000 nodes with several threads: the parallel paths of both residual operators
-    const bool large = !dense && rng.coin(0.05);
+    const bool large = !dense && rng.coin(c.thorough() ? 0.02 : 0.05);
     if (large) {
         go.nr_min = 81; go.nr_max = 97; go.nth_min = 128; go.nth_max = 160;
     }
